@@ -149,8 +149,13 @@ class ConnTable:
                 raise Unsupported("connectivity index")
             ix, sel = ix
             if isinstance(sel, Mask):
-                mask = sel.name
-                MASKS[sel.name] = sel
+                # keyed by object: two mask variables with equal
+                # expressions stay distinct templates
+                same = [k for k, v in MASKS.items()
+                        if k.split("#")[0] == sel.name]
+                hit = [k for k in same if MASKS[k] is sel]
+                mask = hit[0] if hit else f"{sel.name}#{len(same)}"
+                MASKS[mask] = sel
             elif isinstance(sel, slice) and sel == slice(None):
                 mask = None
             else:
@@ -158,6 +163,9 @@ class ConnTable:
         if isinstance(ix, list):
             return RowSel([IdxArr(self.kind, int(k), self.offset, mask)
                            for k in ix])
+        if isinstance(ix, slice) and ix == slice(None):
+            return RowSel([IdxArr(self.kind, k, self.offset, mask)
+                           for k in range(self.nrows)])
         if isinstance(ix, Fraction):
             ix = int(ix)
         if isinstance(ix, int):
@@ -304,6 +312,8 @@ def nverts_of(rd: RefdomInfo, kind: str) -> int:
 
 
 def make_hook(rd: RefdomInfo, captured: dict):
+    MASKS.clear()
+
     def hook(interp, name, args, kwargs, node):
         if name == "numpy.vstack":
             rows = []
